@@ -1,0 +1,21 @@
+//go:build verif
+
+package asyncprocessor
+
+// Contracts checked by /verif/govc (see /verif/DESIGN.md). Comment-only file.
+
+// C16, "nothing runs after Close has returned": Close always closes the queue itself - whether or
+// not the consumer has been started - so that items still pending are dropped and a consumer
+// started later finds the queue closed; and it cancels the context first.
+//@ func (w *Processor) Close
+//@   requires w.buffer != nil
+//@   ensures[C16] calls(ctxCancel) == 1 && calls(Close) == 1
+//@   modifies *
+
+// An item that reports an error stops the consumer and the error is reported exactly once; the
+// consumer ends without an error report only when the queue says it is closed.
+//@ func (w *Processor) runInner
+//@   opt inline=0
+//@   assert[C16]@return calls(OnError) <= 1
+//@   assert[C16]@call:OnError calls(OnError) == 0
+//@   modifies *
